@@ -64,6 +64,8 @@ type Scheduler struct {
 	main        *Goroutine
 	preempt     int
 	maxPreempt  int
+	deviate     int
+	maxDeviate  int
 	killed      bool
 	abort       any // pathEnd or goPanic forwarded from a child goroutine
 	switches    int
@@ -78,7 +80,7 @@ type CtxV struct{ id int }
 
 func (in *Interp) ensureSched() *Scheduler {
 	if in.sched == nil {
-		s := &Scheduler{in: in, maxPreempt: in.maxPreempt}
+		s := &Scheduler{in: in, maxPreempt: in.maxPreempt, maxDeviate: in.maxDeviate}
 		g := &Goroutine{id: 0, name: "main", resume: make(chan struct{})}
 		s.gs = []*Goroutine{g}
 		s.main = g
@@ -92,7 +94,7 @@ func (in *Interp) isConcurrent(fn *ssa.Function) bool { return false }
 func (in *Interp) runConcurrent(fn *ssa.Function, args []Value) {}
 
 func (s *Scheduler) runnable(g *Goroutine) bool {
-	if g.done || g.stopped {
+	if g.done || (g.isTimer && g.stopped) {
 		return false
 	}
 	return g.ready == nil || g.ready()
@@ -186,9 +188,14 @@ func (s *Scheduler) pickNext(cur *Goroutine) *Goroutine {
 	if len(rs) == 0 {
 		return nil
 	}
+	// default: the lowest-numbered runnable goroutine; choosing another one is a
+	// deviation, bounded per path (maxDeviate)
 	k := 0
-	if len(rs) > 1 {
+	if len(rs) > 1 && s.deviate < s.maxDeviate {
 		k = s.in.choose(len(rs), "next")
+		if k > 0 {
+			s.deviate++
+		}
 	}
 	s.log = append(s.log, fmt.Sprintf("g%d(%s) waits (%s) -> g%d(%s)", cur.id, cur.name, cur.waitWhat, rs[k].id, rs[k].name))
 	return rs[k]
@@ -197,7 +204,7 @@ func (s *Scheduler) pickNext(cur *Goroutine) *Goroutine {
 func (s *Scheduler) blockedList() []string {
 	var out []string
 	for _, g := range s.gs {
-		if !g.done && !g.stopped && !g.isTimer && g.ready != nil && !g.ready() {
+		if !g.done && !g.isTimer && g.ready != nil && !g.ready() {
 			out = append(out, fmt.Sprintf("g%d(%s) on %s", g.id, g.name, g.waitWhat))
 		}
 	}
@@ -212,7 +219,7 @@ func (s *Scheduler) deadlock(g *Goroutine, what string) {
 func (s *Scheduler) killAll() {
 	s.killed = true
 	for _, g := range s.gs {
-		if g != s.main && !g.done && !g.isTimer {
+		if g != s.main && !g.done {
 			select {
 			case g.resume <- struct{}{}:
 				<-s.main.resume
@@ -314,8 +321,11 @@ func (s *Scheduler) quiesce(g *Goroutine) {
 			return
 		}
 		k := 0
-		if len(rs) > 1 {
+		if len(rs) > 1 && s.deviate < s.maxDeviate {
 			k = s.in.choose(len(rs), "quiesce")
+			if k > 0 {
+				s.deviate++
+			}
 		}
 		// main stays runnable: it will be resumed when the others block or finish,
 		// because pickNext may pick it; to make sure it only comes back at
@@ -343,6 +353,9 @@ func (in *Interp) newChan(n int, elem types.Type) *ChanV {
 }
 
 func (in *Interp) chanTouch(ch *ChanV) {
+	if ch.closed {
+		return // a closed channel is immutable: always ready, never queues a waiter
+	}
 	if ch.epoch != in.epoch && !in.initing {
 		in.unsupported("operation on a channel created before the path started")
 	}
@@ -903,9 +916,10 @@ func init() {
 		s.yield(g, "stub")
 		s.block(g, "transport stub", func() bool {
 			save, saveD := in.cur, in.depth
-			g.atomic++
+			cur := in.g
+			cur.atomic++
 			r := in.callFunc(nil, 0, f, nil).(*Term)
-			g.atomic--
+			cur.atomic--
 			in.cur, in.depth = save, saveD
 			if !r.IsConst() {
 				in.unsupported("verifBlock condition must be concrete")
@@ -915,20 +929,34 @@ func init() {
 		return nil
 	}
 
+	// ttlv.Stream over a harness transport that speaks whole messages: the codec is
+	// cut out of concurrent scenarios (byte level = C07/C02)
+	streamVia := func(method string) intrinsicFn {
+		return func(in *Interp, caller *frame, fn *ssa.Function, args []Value) Value {
+			st := in.derefCheck(args[0])
+			inner, _ := fieldCell(st, "inner").v.(*IfaceV)
+			if inner != nil && in.methodSig(inner.t, method) != nil {
+				r, _ := in.callMethod(caller, inner, method, args[1:]...)
+				return r
+			}
+			return in.callSSABody(caller, fn, args)
+		}
+	}
+	I["(*github.com/ovh/kmip-go/ttlv.Stream).Send"] = streamVia("VerifSendMsg")
+	I["(*github.com/ovh/kmip-go/ttlv.Stream).Recv"] = streamVia("VerifRecvMsg")
+
 	// time.AfterFunc: a timer pseudo-goroutine that may fire at any scheduling point
 	I["time.AfterFunc"] = func(in *Interp, caller *frame, fn *ssa.Function, args []Value) Value {
 		s := in.ensureSched()
 		f := args[1]
 		t := in.namedType("time", "Timer")
 		tc := in.alloc(t)
-		g := &Goroutine{id: len(s.gs), name: "timer", resume: make(chan struct{})}
+		g := &Goroutine{id: len(s.gs), name: "timer", resume: make(chan struct{}), isTimer: true}
 		s.gs = append(s.gs, g)
 		in.set(in.hidden(tc, "timer"), g)
 		go in.goroutineMain(s, g, func() {
-			if g.stopped {
-				return
-			}
-			g.stopped = true // fired
+			// fired: from now on an ordinary goroutine running the callback
+			g.isTimer = false
 			in.callFunc(nil, token.NoPos, f, nil)
 		})
 		return tc
@@ -936,7 +964,7 @@ func init() {
 	I["(*time.Timer).Stop"] = func(in *Interp, caller *frame, fn *ssa.Function, args []Value) Value {
 		h := in.hidden(in.derefCheck(args[0]), "timer")
 		g, _ := h.v.(*Goroutine)
-		if g == nil || g.stopped || g.done {
+		if g == nil || g.stopped || g.done || !g.isTimer {
 			return TT.False
 		}
 		g.stopped = true
